@@ -31,12 +31,12 @@ CONSTANTS Input,      \* receiver -> sequence of [fr |-> Beast frame, dec |-> BO
           Skew,       \* assumption (ii)
           SecMs,      \* ms per "second" of the table's first/last (1000 in reality)
           TMax,       \* last clock value
-          DMutant,    \* "none" | "table_after_filter" | "no_filter" | "no_skew_bound" | "print_first_only" | "members_sorted"
+          DMutant,    \* "none" | "table_after_filter" | "no_filter" | "no_skew_bound" | "print_first_only" | "members_sorted" | "history_unfiltered"
           DedupMutant \* Mutant of Dedup.tla
 
-VARIABLES ppos, pbuf, pat, pclock, ppend, pnext, precs, ptab, pw, pcfg, pchk, pwire, pends,
+VARIABLES ppos, pbuf, pat, pclock, ppend, pnext, precs, ptab, phist, pw, pcfg, pchk, pwire, pends,
           dhist, dcache, dheap, dnow, dout, ddropped
-pvars == <<ppos, pbuf, pat, pclock, ppend, pnext, precs, ptab, pw, pcfg, pchk, pwire, pends>>
+pvars == <<ppos, pbuf, pat, pclock, ppend, pnext, precs, ptab, phist, pw, pcfg, pchk, pwire, pends>>
 dvars == <<dhist, dcache, dheap, dnow, dout, ddropped>>
 
 RX == DOMAIN Input
@@ -58,7 +58,7 @@ Init == /\ pw \in WSet /\ pcfg \in CfgSet
         /\ ppos = [r \in RX |-> 0] /\ pbuf = [r \in RX |-> <<>>]
         /\ pat = [r \in RX |-> [p \in DOMAIN Input[r] |-> INF]]
         /\ pclock = 0 /\ ppend = [r \in RX |-> <<>>]
-        /\ pnext = 0 /\ precs = <<>> /\ ptab = <<>> /\ pchk = TRUE
+        /\ pnext = 0 /\ precs = <<>> /\ ptab = <<>> /\ phist = <<>> /\ pchk = TRUE
         /\ D!InitW(pw)
 
 Deliver(r, n) ==
@@ -71,10 +71,10 @@ Deliver(r, n) ==
                 IF pends[r][p] > ppos[r] /\ pends[r][p] <= n THEN pclock ELSE @[p]]]
   /\ ppos' = [ppos EXCEPT ![r] = n]
   /\ pchk' = FALSE
-  /\ UNCHANGED <<pclock, pnext, precs, ptab, pw, pcfg, pwire, pends>> /\ UNCHANGED dvars
+  /\ UNCHANGED <<pclock, pnext, precs, ptab, phist, pw, pcfg, pwire, pends>> /\ UNCHANGED dvars
 
 Tick == /\ pclock < TMax /\ pclock' = pclock + 1 /\ pchk' = FALSE
-        /\ UNCHANGED <<ppos, pbuf, pat, ppend, pnext, precs, ptab, pw, pcfg, pwire, pends>> /\ UNCHANGED dvars
+        /\ UNCHANGED <<ppos, pbuf, pat, ppend, pnext, precs, ptab, phist, pw, pcfg, pwire, pends>> /\ UNCHANGED dvars
 
 DedupArrive(r) ==
   /\ ppend[r] # <<>>
@@ -84,9 +84,9 @@ DedupArrive(r) ==
      /\ D!Insert([id |-> Len(dhist) + 1, f |-> Payload(y.fr), t |-> y.t,
                   rx |-> [rx |-> r, id |-> IdOf(y.fr), t |-> y.t, tu |-> y.t]])
   /\ ppend' = [ppend EXCEPT ![r] = Tail(@)] /\ pchk' = FALSE
-  /\ UNCHANGED <<ppos, pbuf, pat, pclock, pnext, precs, ptab, pcfg, pwire, pends>>
+  /\ UNCHANGED <<ppos, pbuf, pat, pclock, pnext, precs, ptab, phist, pcfg, pwire, pends>>
 
-Emit == D!Pop /\ pchk' = FALSE /\ UNCHANGED <<ppos, pbuf, pat, pclock, ppend, pnext, precs, ptab, pcfg, pwire, pends>>
+Emit == D!Pop /\ pchk' = FALSE /\ UNCHANGED <<ppos, pbuf, pat, pclock, ppend, pnext, precs, ptab, phist, pcfg, pwire, pends>>
 
 TabIdx(a) == {x \in DOMAIN ptab : ptab[x].icao = a}
 PrintRec ==
@@ -109,6 +109,13 @@ PrintRec ==
                    ELSE IF TabIdx(a) = {} THEN Append(ptab, [icao |-> a, count |-> 1, first |-> sec, last |-> sec])
                    ELSE LET x == CHOOSE z \in TabIdx(a) : TRUE
                         IN [ptab EXCEPT ![x] = [@ EXCEPT !.count = @ + 1, !.last = sec]]
+        (* store_history: after the filters; the formats that are kept in a history *)
+        /\ phist' = IF (keep \/ DMutant = "history_unfiltered") /\ ShownDF(pay) \in StoredDF
+                     THEN LET el == [df |-> ShownDF(pay), icao |-> a, tu |-> o.t, m |-> mem]
+                              X == {x \in DOMAIN phist : phist[x].icao = a}
+                          IN IF X = {} THEN Append(phist, [icao |-> a, h |-> <<el>>])
+                             ELSE LET x == CHOOSE z \in X : TRUE IN [phist EXCEPT ![x].h = Append(@, el)]
+                     ELSE phist
   /\ pnext' = pnext + 1 /\ pchk' = TRUE
   /\ UNCHANGED <<ppos, pbuf, pat, pclock, ppend, pw, pcfg, pwire, pends>> /\ UNCHANGED dvars
 
@@ -125,7 +132,7 @@ Spec == Init /\ [][Next]_<<pvars, dvars>>
 (* what an outside observer has: inputs with send times, printed records, table *)
 InObs == [r \in RX |-> [p \in DOMAIN Input[r] |->
             [fr |-> Input[r][p].fr, at |-> pat[r][p], dec |-> Input[r][p].dec]]]
-Viol == Violations(InObs, pw, Skew, pcfg, precs, ptab, TRUE)
+Viol == Violations(InObs, pw, Skew, pcfg, precs, ptab, TRUE) \cup TrackViolations(InObs, pcfg, precs, phist)
 AbsHolds == Viol = {}
 
 (* Only PrintRec changes what the clauses read in a way that can falsify    *)
